@@ -1,6 +1,5 @@
 // Specs and contract harnesses for src/state.rs (collector flags, byte / execution counters,
 // replace_state_field! guard).  All loop-free over fully symbolic field values: complete.
-#![allow(dead_code, unused_imports)]
 use super::*;
 
 /// A fresh State whose five fields are symbolic.
